@@ -41,6 +41,19 @@ let str_vb = function
   | VbCommitNoSigs -> "commitnosigs" | VbCommitSig -> "commitsig" | VbLastCommitHash -> "lastcommithash"
   | VbDataHash -> "datahash" | VbEvidenceInvalid -> "evinvalid" | VbEvidenceHash -> "evhash" | VbPanic -> "PANIC"
 
+let str_vs = function
+  | VsBasic c -> str_vb c | VsHeight -> "height" | VsLastBlockID -> "lastblockid" | VsAppHash -> "apphash"
+  | VsValHash -> "valhash" | VsNextValHash -> "nextvalhash" | VsNilLastCommit -> "nillastcommit"
+  | VsInitialSigs -> "initialsigs"
+  | VsCommit (VcBasic c) -> str_vb c | VsCommit VcSize -> "vc-size" | VsCommit VcHeight -> "vc-height"
+  | VsCommit VcBlockID -> "vc-blockid" | VsCommit VcSigs -> "vc-sigs" | VsCommit VcOk -> "ok"
+  | VsTimeNotAfter -> "timenotafter" | VsTimeMedian -> "timemedian" | VsTimeGenesis -> "timegenesis"
+  | VsBelowInitial -> "belowinitial" | VsEvidenceOverflow -> "evoverflow" | VsProposer -> "proposer"
+  | VsEvidencePool -> "evpool" | VsOk -> "ok"
+
+(* first 8 bytes of SHA-256, hex: the digest under which the harness names a stored value *)
+let dg8 (s : string) : string = String.sub (hexs (Hash.sha256 s)) 0 16
+
 let mk_time s n = { t_secs = z_of_string s; t_nanos = z_of_string n }
 let mk_bid h t p = { bid_hash = unhex h; bid_parts = { psh_total = n_of_string t; psh_hash = unhex p } }
 
@@ -59,6 +72,8 @@ let () =
   let lines = ref (read_lines stdin) in
   let next () = match !lines with [] -> None | l :: t -> lines := t; Some (tokens l) in
   let cur = ref (from_header N0 []) in
+  let cur_block : (block * (n list list -> n list)) option ref = ref None in
+  let store : (n list * string) list ref = ref [] in
   let read_commit toks =
     match toks with
     | [h; r; bh; bt; bp; ns] ->
@@ -163,12 +178,60 @@ let () =
       (* the transaction root (DeriveSha over a trie, C07) is an external function: the harness supplies
          its value on this very transaction list *)
       let tx_root (l : n list list) = if l = txs then txroot else [] in
+      cur_block := Some (b, tx_root);
       (match header_hash kec h with
        | None -> print_endline "b PANIC"
        | Some hh ->
          (match validate_basic sha kec tx_root b with
           | VbPanic -> print_endline "b PANIC"
           | cl -> Printf.printf "b %s %s\n" (hx hh) (str_vb cl)));
+      loop ()
+    | Some ["VST"; initial; lasth; bh; bt; bp; app; valh; nextvalh; lvsize; lts; ltn; maxev; sigsok; ms; mn; propk] ->
+      let st = { st_initial = n_of_string initial; st_last_height = n_of_string lasth; st_last_bid = mk_bid bh bt bp;
+                 st_app = unhex app; st_valhash = unhex valh; st_nextvalhash = unhex nextvalh;
+                 st_lastvals_size = n_of_string lvsize; st_last_time = mk_time lts ltn; st_max_evidence = z_of_string maxev } in
+      let x = { x_sigs_ok = (sigsok = "1"); x_median = mk_time ms mn; x_proposer_known = (propk = "1"); x_evpool_ok = true } in
+      (match !cur_block with
+       | None -> failwith "VST without a block"
+       | Some (b, tx_root) ->
+         (match validate_block sha kec tx_root st x b with
+          | VsBasic VbPanic -> print_endline "vs PANIC"
+          | cl -> Printf.printf "vs %s\n" (str_vs cl)));
+      loop ()
+    | Some ["PP"; total] ->
+      Printf.printf "pp %s\n" (b01 (proposal_parts_ok (n_of_string total)));
+      loop ()
+    | Some ["DBNEW"] -> store := []; print_endline "dbnew"; loop ()
+    | Some ["WB"; h; hash; vmeta; vcommit; vseen; total; vparts] ->
+      let hn = n_of_string h in
+      let hashb = unhex hash in
+      let parts = if vparts = "-" then [] else String.split_on_char ',' vparts in
+      if List.length parts <> int_of_string total then failwith "WB: part count";
+      let vheight = dg8 (str_of_bytes (be (nat_of_int 8) hn)) in
+      let vhash = dg8 (str_of_bytes hashb) in
+      store := write_block !store hn hashb vmeta parts vcommit vseen vheight vhash;
+      let lines = List.sort compare (List.map (fun (k, v) -> hexs (str_of_bytes k) ^ "=" ^ v) !store) in
+      Printf.printf "wb %d %s\n" (List.length lines) (dg8 (String.concat "\n" lines));
+      loop ()
+    | Some ("RG" :: kind :: args) ->
+      let key = match kind, args with
+        | "meta", [h] -> key_meta (n_of_string h)
+        | "part", [h; i] -> key_part (n_of_string h) (n_of_string i)
+        | "commit", [h] -> key_commit (n_of_string h)
+        | "seen", [h] -> key_seen (n_of_string h)
+        | "canon", [h] -> key_canon (n_of_string h)
+        | "height", [x] -> key_height (unhex x)
+        | _ -> failwith "bad RG" in
+      Printf.printf "rg %s\n" (match db_get !store key with None -> "-" | Some v -> v);
+      loop ()
+    | Some ["RB"; h; total] ->
+      let hn = n_of_string h in
+      (match db_get !store (key_meta hn) with
+       | None -> print_endline "rb none"
+       | Some _ ->
+         (match read_parts !store hn (nat_of_int (int_of_string total)) with
+          | None -> print_endline "rb MISSING"
+          | Some _ -> print_endline "rb ok"));
       loop ()
     | Some l -> failwith ("bad line: " ^ String.concat " " (take 4 l))
   in
